@@ -205,6 +205,40 @@ class TabWorld:
                                   fmt=fmt, kind="write", buffered=False)
         self.kinds.add(("write", fmt))
 
+    def op_copy_text_table(self, table, dest, rows, buffer_size, kind, chunk_size):
+        """A text table written by another tool in %g style (whole numbers without a decimal point; the first two
+        rows of the float column are whole, later ones fractional) is copied through reader -> writer, the writer being
+        declared with the reader's column names and (two-row inferred) column types - the usual "copy a table" idiom,
+        also used by the rollup tool.  The copy must hold the same values."""
+        from mokapot.tabular_data import TableType, TabularDataReader, TabularDataWriter
+
+        if table in self.tables or dest in self.tables or table == dest or len(rows) < 3:
+            return
+        columns, types = ["score", "rid"], ["float", "int"]
+        rws = [[float(r[0]), int(r[1])] for r in rows]
+        rws[0][0], rws[1][0] = float(round(rws[0][0])), float(round(rws[1][0]))
+        src = self._path(table, "csv")
+        self._write_int_text(src, columns, rws)
+        self.tables[table] = {"path": src, "fmt": "csv", "columns": columns, "types": types, "rows": rws, "writer": None,
+                              "kind": "direct", "buffer_size": 0, "final": True, "sorted": None}
+        reader = TabularDataReader.from_path(src)
+        dst = self._path(dest, "csv")
+        kind = "DataFrame"  # (chunks of a reader are frames; the other buffer kinds expect dicts / records)
+        w = TabularDataWriter.from_suffix(dst, columns=reader.get_column_names(), column_types=reader.get_column_types(),
+                                          buffer_size=buffer_size, buffer_type=TableType[kind])
+        w.initialize()
+        for ch in reader.get_chunked_data_iterator(chunk_size=chunk_size):
+            w.append_data(ch)
+        w.finalize()
+        self.stats["text_tables_copied"] = self.stats.get("text_tables_copied", 0) + 1
+        self.tables[dest] = {"path": dst, "fmt": "csv", "columns": columns, "types": types, "rows": [list(r) for r in rws],
+                             "writer": None, "kind": "write", "buffer_size": buffer_size, "final": True, "sorted": None}
+        got = frame_rows(TabularDataReader.from_path(dst).read(), columns)
+        if not rows_equal(rws, got):
+            raise OracleViolation("writer_roundtrip", f"copy of a %g-style text table (writer declared with the reader's column "
+                                  f"types {[str(t) for t in reader.get_column_types()]}, buffer {buffer_size} {kind}): "
+                                  f"{first_diff(rws, got)}", fmt="csv", kind="copy", buffered=buffer_size > 1)
+
     def op_parquet_direct(self, table, columns, types, rows, row_group_size, dict_strings=False, index_start=0):
         import pyarrow as pa
         import pyarrow.parquet as pq
